@@ -225,6 +225,71 @@ def _subscription_in_batch(srv, core):
     return b, viol, reach, bad, premise, sorted(d.ctx.encoded_bodies)
 
 
+def _ws_reply_decision(srv):
+    """WebSocket per-message task after handle_rpc_call answered: the response text is sent exactly when the response is a method call's or a batch's - a notification-only
+    batch (whose MethodResponse is the 'notification' kind) and a single notification produce no frame at all"""
+    from . import C10
+    from .. import seqmodels as SQ2
+    cands = [b for b in R.find_body(srv, r"^fn background_task::\{closure#0\}::\{closure#\d+\}\(_1: Pin<&mut \{async block@server/src/transport/ws\.rs", all_=True) if P.syntactic_sites(b, r"^handle_rpc_call::<")]
+    if len(cands) != 1:
+        return R.Result(engine="mirsym", name="order:ws-message-task:reply-decision", kind="order", status="site-missing", detail=f"{len(cands)} candidate bodies", bodies=[])
+    b = cands[0]
+    is_call, is_batch = z3.Bool("response.is_method_call"), z3.Bool("response.is_batch")
+    found, fb = z3.Bool("nonws.found"), z3.BitVec("nonws.byte", 8)
+
+    def m_find(ex, st, callee, args, dty, site):
+        o = Node(ex.ctx.fresh_name("found"), "Option<(usize,&u8)>")
+        d = Node(o.name + ".discr", "isize")
+        d.val = z3.If(found, z3.BitVecVal(1, 64), z3.BitVecVal(0, 64))
+        o.kids["discr"] = d
+        t = Node(o.name + ".Some:0", None)
+        a_, b_ = Node(t.name + ".0", "usize"), Node(t.name + ".1", None)
+        a_.val = z3.BitVec("nonws.idx", 64)
+        byte_n = Node(t.name + ".byte", "u8")
+        byte_n.val = fb
+        b_.val = Ptr(byte_n)
+        t.kids[0], t.kids[1] = a_, b_
+        o.kids[("Some", 0)] = t
+        return o
+    models = [C10._poll_model([("handle_rpc_call", "call", lambda ex_: Opaque(z3.Const("the_response", OBJ))), ("MethodSink::send()", "sink_send", lambda ex_: ex_.mk_variant("Result", 0, "Ok", MM.UNIT)),
+                               ("MethodSink::send_error()", "sink_send_error", lambda ex_: ex_.mk_variant("Result", 0, "Ok", MM.UNIT))]),
+              (r"MethodResponse::is_method_call$", lambda ex, st, c, a, d, s_: is_call), (r"MethodResponse::is_batch$", lambda ex, st, c, a, d, s_: is_batch),
+              (r"as Iterator>::take$", M.m_identity), (r"as Iterator>::find::<", m_find), (r"as Iterator>::enumerate$", M.m_identity), (r"^core::slice::<impl \[u8\]>::iter$", M.m_identity)]
+    ex, ctx, paths = P.explore(srv, b, extra_models=models + list(SQ2.TRY_MODELS) + list(M.TRACING_MODELS), max_paths=20000)
+    bad = [(p.kind, p.detail) for p in paths if p.kind in ("unsupported", "limit", "unwound")]
+    viol, reach = [], {"sent": [], "silent": []}
+    ready = [z3.Bool("call.ready"), z3.Bool("sink_send.ready"), z3.Bool("sink_send_error.ready")]
+    for p in paths:
+        if p.kind != "return" or (getattr(p, "state", None) or 0) != 0:
+            continue
+        d = z3.simplify(ex.discr_of(p.ret)) if isinstance(p.ret, Node) else None
+        if not (d is not None and z3.is_bv_value(d) and d.as_long() == 0):
+            continue                          # the task did not run to its end on this path
+        seq = [e for e in p.events if e.kind == "call"]
+        if not [e for e in seq if e.callee.endswith("::poll") and "handle_rpc_call" in e.callee]:
+            continue                          # the -32700 branch: no call was made (decided by C01)
+        pc = z3.And(p.cond(), z3.Not(z3.And(is_call, is_batch)))
+        sends = [e for e in seq if e.callee.endswith("MethodSink::send")]
+        want = z3.Or(is_call, is_batch)
+        if sends:
+            reach["sent"].append(z3.And(pc, want))
+            viol.append(z3.And(pc, z3.Not(want)))
+            if len(sends) != 1:
+                viol.append(pc)
+        else:
+            reach["silent"].append(z3.And(pc, z3.Not(want)))
+            viol.append(z3.And(pc, want))
+    reach_l = R.live_reach(viol, reach, bad)
+    if bad or not all(reach_l):
+        return R.Result(engine="mirsym", name="order:ws-message-task:reply-decision", kind="order", status="unsupported" if bad else "vacuous",
+                        detail=str(bad[:1] or {k: len(v) for k, v in reach.items()})[:300], bodies=[b.name])
+    return R.decide("order:ws-message-task:reply-decision", "order", z3.Or(*viol) if viol else z3.BoolVal(False), [z3.Or(*v) for v in reach_l], bodies=[b.name],
+                    desc="over WebSocket a frame is sent for a message exactly when its response is a method call's or a batch's - once; a batch made of notifications only (and a single "
+                         "notification) is answered by nothing at all, not even the text `null`",
+                    bounds="single / batch message; every kind of response; every resume point, all futures ready", keydetail="ws-reply-decision",
+                    replay=dict(scenario="c02_ws_notification_batch", vars={}, fixed={}, region=z3.BoolVal(True)))
+
+
 def obligations(tier, seed):
     srv = R.bodies("server")
     out = []
@@ -334,6 +399,7 @@ def obligations(tier, seed):
             r["key"] = "mirsym:c02:subscription-response-delivered-outside-the-array"
             r["replay"] = {"scenario": "c02_ws_batch_with_subscription", "args": {"entries": ["sub", "call"]}}
         out.append(r)
+    out.append(_ws_reply_decision(R.bodies("server")))
     # "however the server is assembled": the configured value survives every builder step
     from .cfgframe import journey_obligations as _journey
     _extra = _journey(R.bodies("server"), "batch_requests_config", "set_batch_request_config", scenario="cfg_journey", fixed={"field": "batch_requests_config"})
